@@ -6,6 +6,7 @@ package t
 
 import (
 	"cmp"
+	"iter"
 	"math/rand"
 	"time"
 
@@ -566,4 +567,115 @@ func netScript(n int, k kind, pairs []int) int {
 	pair[1] = acc
 	pair[0] = len(pair)
 	return pair[0] + pair[1]
+}
+
+// shelf / rack: dynamic dispatch that devirt.go resolves — results declared as the interface but always a *rack,
+// parameters of the interface type taken to be *rack (run.sh passes -self shelf), the canonical iterator `each`
+// inlined (each itself is not translated: -skip rack.each) — and insertion in place,
+// `x = append(x[:i], append([]T{v}, x[i:]...)...)`, which panics unless 0 <= i <= len(x)
+type shelf interface {
+	count() int
+	has(v int) bool
+	put(v int)
+	each() iter.Seq[int]
+	same(o shelf) bool
+	fork() shelf
+	plus(os ...shelf) shelf
+}
+
+type rack struct{ items []int }
+
+func (r *rack) count() int { return len(r.items) }
+
+func (r *rack) has(v int) bool {
+	for _, x := range r.items {
+		if x == v {
+			return true
+		}
+	}
+	return false
+}
+
+func (r *rack) putAt(lo, v int) {
+	r.items = append(r.items[:lo], append([]int{v}, r.items[lo:]...)...)
+}
+
+func (r *rack) put(v int) {
+	lo := 0
+	for lo < len(r.items) && r.items[lo] < v {
+		lo++
+	}
+	r.putAt(lo, v)
+}
+
+func (r *rack) each() iter.Seq[int] {
+	return func(yield func(int) bool) {
+		for _, m := range r.items {
+			if !yield(m) {
+				return
+			}
+		}
+	}
+}
+
+func (r *rack) same(o shelf) bool {
+	if r.count() != o.count() {
+		return false
+	}
+	for m := range r.each() {
+		if !o.has(m) {
+			return false
+		}
+	}
+	return true
+}
+
+func (r *rack) fork() shelf {
+	t := &rack{items: make([]int, len(r.items))}
+	copy(t.items, r.items)
+	return t
+}
+
+func (r *rack) plus(os ...shelf) shelf {
+	t := r.fork()
+	for _, o := range os {
+		for m := range o.each() {
+			if m < 0 {
+				break
+			}
+			if !t.has(m) {
+				t.put(m)
+			}
+		}
+	}
+	return t
+}
+
+func rackScript(a, b []int, lo int) int {
+	x := &rack{items: make([]int, 0)}
+	for _, v := range a {
+		x.put(v)
+	}
+	y := &rack{items: make([]int, 0)}
+	for _, v := range b {
+		y.put(v)
+	}
+	u := x.plus(y, x)
+	acc := 0
+	if x.same(y) {
+		acc += 1
+	}
+	if u.same(y.plus(x)) {
+		acc += 2
+	}
+	y.putAt(lo, 99)
+	i := 0
+	for v := range u.each() {
+		acc += (i + 3) * v * 10
+		i++
+	}
+	for i, v := range y.items {
+		acc += (i + 7) * v * 1000
+	}
+	return acc
 }
